@@ -228,8 +228,11 @@ def fromstr_shape(facts, key):
             ao = [models.canon_atom(a) for _, a in atoms_at(b, bo)]
             pay = co[1]
             look = pay[1] if pay[0] == "some" else None
-            ok = look is not None and is_lookup(look) and len(ae) == 1 and ae[0][0] == "callres" and ae[0][1] == "phf::Map::<K, V>::get" and ae[0][-1] == "None" \
-                and len(ao) == 1 and ao[0][0] == "callres" and ao[0][-1] == "Some"
+            if look is not None and look[0] == "call" and look[1] == "std::option::Option::<&T>::copied":
+                look = look[2][0]   # Some(&t) -> Some(t): the same variant, the value copied
+            LOOK = ("phf::Map::<K, V>::get", "std::option::Option::<&T>::copied")
+            ok = look is not None and is_lookup(look) and len(ae) == 1 and ae[0][0] == "callres" and ae[0][1] in LOOK and ae[0][-1] == "None" \
+                and len(ao) == 1 and ao[0][0] == "callres" and ao[0][1] in LOOK and ao[0][-1] == "Some"
             err = models.error_const(ce[1])
     return ok and not b.back_edges(), err, nshow(t)[:200]
 
